@@ -79,6 +79,9 @@ mod scanners;
 mod strings;
 #[cfg(test)]
 mod tests;
+#[cfg(comrak_verif)]
+#[doc(hidden)]
+pub mod verif;
 mod xml;
 
 pub use cm::format_document as format_commonmark;
